@@ -57,6 +57,8 @@ def _case(draw: Any, args: dict) -> dict:
     for _ in range(draw(st.integers(2, 4))):
         decls.append(gt.func(namer.fresh("fn"), [gt.param(namer.fresh("q"), "pos", t(), None) for _ in range(draw(st.integers(1, 2)))], ret=t(), doc="A function."))
     decls.append(gt.enum("Shade", ["DARK", "LIGHT"]))
+    # (instantiating a class puts its short name into the analyser's package-wide table, through which forward 'list[X]' attributes are resolved)
+    decls.append(gt.func("make_baz", [gt.param("n", "pos", ["int"], None)], ret=orf[2], body=["return Baz()"]))
     # a function without any parameter and a function over a type variable (module-level type variables are analyser state)
     if draw(st.booleans()):
         noparam = gt.func("version_info", [], ret=["str"], doc="No parameters.")
@@ -81,12 +83,14 @@ def _case(draw: Any, args: dict) -> dict:
     inits = {f"{pk}/a": [["from", "._alpha", "Alpha", None], ["from", "._alpha", "alpha_helper", None], ["from", ".target", moved, None]]}
     # unrelated modules: may reuse the target's class / function / module names
     def unrelated(path: list[str], reuse: bool, variant: int) -> dict:
-        names_c = (["Foo", "Bar"] if reuse else [namer.fresh("Other"), namer.fresh("Other")])
-        ds: list[dict] = [gt.klass(n, [gt.attr(f"ux{variant}", ["str"], None)]) for n in names_c]
+        names_c = (["Foo", "Bar", "Baz"] if reuse else [namer.fresh("Other"), namer.fresh("Other")])
+        # (a method: its 'self' puts the class into the analyser's package-wide table of short names)
+        ds: list[dict] = [gt.klass(n, [gt.attr(f"ux{variant}", ["str"], None), gt.func("touch", [], ret=["int"], kind="method")]) for n in names_c]
         fname = decls[len(own)]["name"] if reuse else namer.fresh("ufn")
         ds.append(gt.func(fname, [gt.param("z", "pos", ["cls", f"{'.'.join(path)}:{names_c[0]}"], None)], ret=["int"]))
         ds.append(gt.func(namer.fresh("uses_foreign"), [gt.param("fr", "pos", ["ext", "fractions", "Fraction"], None), gt.param("oc", "pos", ["cls", f"{'.'.join(path)}:{names_c[1]}"], None)], ret=["ext", "collections", "OrderedDict"]))
         if reuse:
+            ds.append(gt.func("make_baz_unrelated", [gt.param("n", "pos", ["int"], None)], ret=["cls", f"{'.'.join(path)}:Baz"], body=["return Baz()"]))
             ds.append(gt.enum("Shade", ["X"]))
             ds.append(gt.klass(helper_cls[0], []))
             ds.append(gt.klass("_PrivBase", [gt.func("inherited_from_unrelated_base", [], ret=["str"], kind="method")]))
@@ -120,6 +124,8 @@ def _case(draw: Any, args: dict) -> dict:
                 new = ".".join(m["path"])
                 for d in m["decls"]:
                     if d["t"] == "func":
+                        if d.get("ret") and d["ret"][0] == "cls":
+                            d["ret"] = ["cls", d["ret"][1].replace(old + ":", new + ":")]
                         for p in d["params"]:
                             if p["ann"] and p["ann"][0] == "cls":
                                 p["ann"] = ["cls", p["ann"][1].replace(old + ":", new + ":")]
